@@ -1,5 +1,461 @@
 package props
 
-// PipeScen and MultiScen are defined with C11 / C17.
-type PipeScen struct{}
-type MultiScen struct{}
+import (
+	"bufio"
+	"bytes"
+	"fmt"
+	"io"
+	"runtime"
+
+	"fgverif/kern"
+	"fgverif/scen"
+)
+
+// PipeScen: a producer task (Writer with Flush points) feeds a gated pipe, a
+// consumer task (Reader) drains it; the driver releases the produced bytes
+// one flush point at a time and checks at every quiescence what the consumer
+// has been able to return.
+type PipeScen struct {
+	W       *scen.WScen   `json:"w"`   // producer history (Write/Flush ops, one Close at the end)
+	Enc     string        `json:"enc"` // "std" | "fast"
+	Src     scen.SrcSpec  `json:"src"` // how the consumer's Reader sees the pipe: plain | bufio(size)
+	Chunks  []int         `json:"chunks,omitempty"`
+	Reads   []int         `json:"reads,omitempty"`
+	NoMulti bool          `json:"no_multi,omitempty"` // gzip: Multistream(false)
+	StopAt  int           `json:"stop_at"`            // index of the flush point after which the source misbehaves; -1 = none
+	After   string        `json:"after,omitempty"`    // "block" | "error" | "garbage"
+	Garbage scen.DataSpec `json:"garbage,omitempty"`
+}
+
+type MultiScen struct {
+	Tasks []MultiTask `json:"tasks"`
+}
+
+type MultiTask struct {
+	W *scen.WScen `json:"w,omitempty"`
+	R *scen.RScen `json:"r,omitempty"`
+}
+
+type flushPoint struct {
+	off   int
+	model int // bytes of data written before this point
+	final bool
+}
+
+type pipeResult struct {
+	points    []flushPoint
+	model     []byte
+	out       []byte
+	err       error
+	kind      string
+	done      bool
+	reads     int
+	panicC    string
+	panicP    string
+	prodErr   string
+	verdicts  []string // per checked point: "" ok or a description
+	violation string
+	oracle    string
+	atPoint   int
+	released  int
+	postFired bool
+	aborted   string
+}
+
+// runPipe executes the scenario. fast selects the implementation of the
+// consumer's Reader (true = fastgo).
+func runPipe(ps *PipeScen, sched kern.SchedSpec, fastReader bool, keep bool) (*pipeResult, *kern.Log, *kern.Sim) {
+	log := kern.NewLog(keep)
+	sim := kern.NewSim(log, sched)
+	res := &pipeResult{atPoint: -1}
+	pipe := &kern.Pipe{Log: log, Chunks: ps.Chunks}
+	data := ps.W.Data.Bytes()
+	injected := &kern.InjectedError{Tag: "pipe"}
+
+	prod := sim.Go("producer", func(t *kern.Task) {
+		defer func() {
+			if r := recover(); r != nil {
+				if r == kern.ErrKilled {
+					panic(r)
+				}
+				res.panicP = fmt.Sprint(r)
+			}
+		}()
+		pipe.Producer = t
+		w, err := scen.NewWriter(ps.W, pipe, ps.Enc == "fast")
+		if err != nil {
+			res.prodErr = err.Error()
+			return
+		}
+		pos := 0
+		for _, op := range ps.W.Ops {
+			var e error
+			switch op.K {
+			case "w":
+				n := op.N
+				if pos+n > len(data) {
+					n = len(data) - pos
+				}
+				_, e = w.Write(data[pos : pos+n])
+				res.model = append(res.model, data[pos:pos+n]...)
+				pos += n
+			case "f":
+				e = w.Flush()
+				if e == nil {
+					res.points = append(res.points, flushPoint{off: len(pipe.Buf), model: len(res.model)})
+				}
+			case "c":
+				e = w.Close()
+				if e == nil {
+					res.points = append(res.points, flushPoint{off: len(pipe.Buf), model: len(res.model), final: true})
+				}
+			}
+			if e != nil {
+				res.prodErr = e.Error()
+				return
+			}
+			t.Yield()
+		}
+	})
+	cons := sim.Go("consumer", func(t *kern.Task) {
+		defer func() {
+			if r := recover(); r != nil {
+				if r == kern.ErrKilled {
+					panic(r)
+				}
+				buf := make([]byte, 4096)
+				res.panicC = fmt.Sprintf("%v\n%s", r, buf[:runtime.Stack(buf, false)])
+			}
+			res.done = true
+		}()
+		pipe.Consumer = t
+		var src io.Reader = struct{ io.Reader }{pipe}
+		if ps.Src.Kind == "bufio" {
+			src = bufio.NewReaderSize(src, ps.Src.Buf)
+		}
+		var dict []byte
+		if ps.W.Ctor == "dict" && ps.W.Dict != nil {
+			dict = ps.W.Dict.Bytes()
+		}
+		rd, multi, err := scen.OpenReader(ps.W.Pkg, fastReader, src, dict)
+		if err != nil {
+			res.err, res.kind = err, scen.ErrKind(err)
+			return
+		}
+		if ps.W.Pkg == "gzip" && ps.NoMulti {
+			multi(false)
+		}
+		si, zero := 0, 0
+		var scratch []byte
+		for {
+			sz := 65536
+			if len(ps.Reads) > 0 {
+				sz = ps.Reads[si%len(ps.Reads)]
+				si++
+				if sz < 1 {
+					sz = 1
+				}
+			}
+			if cap(scratch) < sz {
+				scratch = make([]byte, sz)
+			}
+			buf := scratch[:sz]
+			n, e := rd.Read(buf)
+			res.reads++
+			res.out = append(res.out, buf[:n]...)
+			if e != nil {
+				res.err, res.kind = e, scen.ErrKind(e)
+				return
+			}
+			if n == 0 {
+				zero++
+				if zero > 64 {
+					res.aborted = "livelock: 64 empty reads"
+					return
+				}
+			} else {
+				zero = 0
+			}
+			if res.reads > 200000+8*len(res.model) {
+				res.aborted = "read cap"
+				return
+			}
+		}
+	})
+	_ = prod
+	_ = cons
+	next := 0  // next point to release
+	phase := 0 // 0 = release next, 1 = released, consumer running/settled -> check, 2 = post-prefix behaviour injected
+	// evaluate is the invariant: with everything up to point `next` delivered
+	// and the consumer unable to proceed (blocked on the source, or finished),
+	// it must have returned exactly the data written before that point.
+	evaluate := func() bool {
+		p := res.points[next]
+		res.atPoint = next
+		want := res.model[:p.model]
+		if !bytes.HasPrefix(want, res.out) && !bytes.HasPrefix(res.out, want) {
+			res.oracle, res.violation = "wrong_bytes", fmt.Sprintf("at flush point %d (offset %d): output is not the data written: %s", next, p.off, diffAt(res.out, want))
+			return false
+		}
+		if len(res.out) < len(want) {
+			if res.done && res.err != nil && res.kind != "EOF" {
+				res.oracle, res.violation = "wrong_error", fmt.Sprintf("at flush point %d the Reader gave up with %v after %d of %d bytes although the delivered prefix is valid", next, res.err, len(res.out), len(want))
+				return false
+			}
+			res.oracle, res.violation = "withheld_at_flush", fmt.Sprintf("source delivered everything up to flush point %d (%d compressed bytes, %d data bytes) and now stalls; the Reader returned only %d bytes and waits for more input", next, p.off, p.model, len(res.out))
+			if p.final {
+				res.oracle = "withheld_at_end"
+			}
+			return false
+		}
+		if len(res.out) > len(want) {
+			res.oracle, res.violation = "wrong_bytes", fmt.Sprintf("at flush point %d the Reader returned %d bytes, only %d were written before it", next, len(res.out), len(want))
+			return false
+		}
+		return true
+	}
+	sim.OnQuiescent = func() bool {
+		// only the consumer can be blocked here (the producer never blocks)
+		if phase == 2 {
+			return false
+		}
+		if phase == 0 {
+			if next >= len(res.points) {
+				return false
+			}
+			pipe.Released = res.points[next].off
+			res.released = pipe.Released
+			phase = 1
+			return true
+		}
+		if !evaluate() {
+			phase = 3
+			return false
+		}
+		if next == ps.StopAt {
+			switch ps.After {
+			case "error":
+				pipe.PostErr = injected
+				res.postFired = true
+				phase = 2
+				return true
+			case "garbage":
+				pipe.Garbage = ps.Garbage.Bytes()
+				res.postFired = true
+				phase = 2
+				return true
+			default:
+				phase = 3
+				return false // stalls forever
+			}
+		}
+		next++
+		if next >= len(res.points) {
+			phase = 3
+			return false
+		}
+		pipe.Released = res.points[next].off
+		res.released = pipe.Released
+		phase = 1
+		return true
+	}
+	sim.Run()
+	if phase == 1 && next < len(res.points) && res.panicC == "" {
+		// the consumer finished (EOF or error) without blocking again
+		evaluate()
+	}
+	return res, log, sim
+}
+
+// ===================================================================== C11
+
+type c11 struct{}
+
+func init() { register(c11{}) }
+
+func (c11) ID() string           { return "C11" }
+func (c11) Runs(tier string) int { return tierLen(tier, 2000, 30000) }
+
+func (c11) Gen(r *kern.Rng, tier string, idx int) *Trace {
+	maxLen := tierLen(tier, 120000, 600000)
+	if r.Pct(60) {
+		maxLen = 20000
+	}
+	pkg := []string{"flate", "flate", "gzip", "zlib"}[r.Intn(4)]
+	var w *scen.WScen
+	if pkg == "flate" {
+		w = &scen.WScen{Pkg: "flate", Ctor: "new", Level: allLevels[r.Intn(len(allLevels))], Data: scen.GenData(r, maxLen)}
+		if r.Pct(50) {
+			w.Level = r.Pick(-2, -1, 1, 2)
+		}
+	} else {
+		w = genContainerW(r, pkg, maxLen)
+		if w.Ctor == "dict" {
+			w.Ctor, w.Dict = "level", nil
+		}
+	}
+	w.Ops = GenOps(r, w.Data.Len, r.Pick(20, 50, 100), 40)
+	ps := &PipeScen{W: w, Enc: r.PickS("std", "fast"), StopAt: -1}
+	nflush := 0
+	for _, o := range w.Ops {
+		if o.K == "f" || o.K == "c" {
+			nflush++
+		}
+	}
+	switch r.Weighted(3, 3, 2, 2) {
+	case 0: // run through all points, stall at the end without EOF
+		ps.StopAt, ps.After = nflush-1, "block"
+	case 1:
+		ps.StopAt, ps.After = r.Intn(nflush), "block"
+	case 2:
+		ps.StopAt, ps.After = r.Intn(nflush), "error"
+	default:
+		ps.StopAt, ps.After = r.Intn(nflush), "garbage"
+		ps.Garbage = scen.DataSpec{Kind: r.PickS("rand", "zeros", "text"), Seed: r.Uint64(), Len: r.Pick(1, 8, 100, 5000)}
+	}
+	switch r.Weighted(4, 5) {
+	case 0:
+		ps.Src = scen.SrcSpec{Kind: "plain"}
+	default:
+		ps.Src = scen.SrcSpec{Kind: "bufio", Buf: bufSizes[r.Intn(len(bufSizes))]}
+	}
+	ps.Chunks = genDelivery(r).Chunks
+	ps.Reads = genReads(r)
+	if pkg == "gzip" {
+		ps.NoMulti = r.Pct(60)
+	}
+	return &Trace{Property: "C11", Family: "P: producer -> gated pipe -> consumer", Pipe: ps,
+		Sched: kern.SchedSpec{Policy: r.PickS("rand", "rand", "rr", "seq"), Seed: r.Uint64(), SwitchPct: r.Pick(10, 50, 90)}}
+}
+
+func (c11) Exec(tr *Trace, keep bool) *Outcome {
+	o := &Outcome{LevelIndep: tr.Pipe.Enc != "fast"}
+	ps := tr.Pipe
+	res, log, sim := runPipe(ps, tr.Sched, true, keep)
+	feat := wFeatures(ps.W)
+	feat["srckind"] = ps.Src.Kind
+	feat["after"] = ps.After
+	feat["enc"] = ps.Enc
+	feat["mode"] = "n/a"
+	if ps.W.Pkg == "gzip" {
+		feat["mode"] = "default"
+		if ps.NoMulti {
+			feat["mode"] = "multistream_false"
+		}
+	}
+	o.fold(log, len(res.points) > 1)
+	o.stat("task_switches", sim.Switches)
+	o.Sample = fmt.Sprintf("%s level %d enc=%s data %s/%d ops %s; src %s/%d chunks %v reads %v; stop at point %d then %s; sched %s", ps.W.Pkg, ps.W.Level, ps.Enc, ps.W.Data.Kind, ps.W.Data.Len, feat["ops"], ps.Src.Kind, ps.Src.Buf, clip(ps.Chunks), clip(ps.Reads), ps.StopAt, ps.After, tr.Sched.Policy)
+	h := kern.HashBytes(res.out)
+	o.Digest = h*0x100000001b3 ^ kern.HashBytes([]byte(kindClass(res.kind)))
+	if res.panicC != "" {
+		o.violate(tr, "C11.panic", res.panicC, feat)
+		return o
+	}
+	if res.panicP != "" || res.prodErr != "" {
+		o.stat("producer_failed", 1)
+		return o
+	}
+	if sim.Aborted != "" || res.aborted != "" {
+		o.violate(tr, "C11.hang", "step bound exceeded: "+sim.Aborted+res.aborted, feat)
+		return o
+	}
+	o.stat("flush_points_checked", res.atPoint+1)
+	o.stat("after_"+ps.After, 1)
+	if res.postFired {
+		o.stat("post_prefix_faults_fired", 1)
+	}
+	if res.oracle != "" {
+		feat["point_final"] = "false"
+		if res.atPoint >= 0 && res.points[res.atPoint].final {
+			feat["point_final"] = "true"
+		}
+		o.violate(tr, "C11."+res.oracle, res.violation, feat)
+		return o
+	}
+	if res.atPoint < 0 {
+		return o
+	}
+	p := res.points[res.atPoint]
+	want := res.model[:p.model]
+	// end of stream: io.EOF is due once the whole stream (incl. trailer) was delivered
+	if p.final && res.atPoint <= ps.StopAt {
+		eofDue := !(ps.W.Pkg == "gzip" && !ps.NoMulti)
+		if eofDue && ps.After == "block" && res.kind != "EOF" {
+			o.violate(tr, "C11.withheld_at_end", fmt.Sprintf("the whole stream (%d bytes) was delivered and the source stalls; all %d data bytes were returned but io.EOF was not (Reader state: err=%v, done=%v)", p.off, len(res.out), res.err, res.done), feat)
+			return o
+		}
+		if eofDue && ps.After != "block" && res.kind != "EOF" {
+			o.violate(tr, "C11.wrong_error", fmt.Sprintf("the whole stream was delivered, then the source %s; the Reader ended with %v instead of io.EOF", map[string]string{"error": "failed", "garbage": "delivered unrelated bytes"}[ps.After], res.err), feat)
+			return o
+		}
+	}
+	if ps.After == "error" && res.postFired && !p.final {
+		if !bytes.Equal(res.out, want) {
+			o.violate(tr, "C11.wrong_bytes", "after the source error the output differs from the data before the flush point: "+diffAt(res.out, want), feat)
+			return o
+		}
+		if res.kind != "injected" {
+			o.violate(tr, "C11.wrong_error", fmt.Sprintf("source failed after flush point %d; the Reader ended with %v instead of the source's error", res.atPoint, res.err), feat)
+		}
+	}
+	if ps.After == "garbage" && res.postFired {
+		if len(res.out) < len(want) || !bytes.Equal(res.out[:len(want)], want) {
+			o.violate(tr, "C11.wrong_bytes", "unrelated bytes after the flush point changed data already due: "+diffAt(res.out, want), feat)
+		}
+	}
+	return o
+}
+
+func (c11) Shrinks(tr *Trace) []*Trace {
+	var out []*Trace
+	ps := tr.Pipe
+	for _, w := range shrinkW(ps.W) {
+		if countOps(w.Ops, "c") != 1 || w.Ops[len(w.Ops)-1].K != "c" {
+			continue
+		}
+		c := tr.Clone()
+		c.Pipe.W = w
+		n := 0
+		for _, o := range w.Ops {
+			if o.K == "f" || o.K == "c" {
+				n++
+			}
+		}
+		if c.Pipe.StopAt >= n {
+			c.Pipe.StopAt = n - 1
+		}
+		out = append(out, c)
+	}
+	if len(ps.Chunks) > 0 {
+		c := tr.Clone()
+		c.Pipe.Chunks = nil
+		out = append(out, c)
+	}
+	if len(ps.Reads) > 0 {
+		c := tr.Clone()
+		c.Pipe.Reads = nil
+		out = append(out, c)
+	}
+	if ps.StopAt > 0 {
+		c := tr.Clone()
+		c.Pipe.StopAt--
+		out = append(out, c)
+	}
+	if ps.After != "block" {
+		c := tr.Clone()
+		c.Pipe.After = "block"
+		out = append(out, c)
+	}
+	if tr.Sched.Policy != "seq" {
+		c := tr.Clone()
+		c.Sched = kern.SchedSpec{Policy: "seq"}
+		out = append(out, c)
+	}
+	if ps.Enc == "fast" {
+		c := tr.Clone()
+		c.Pipe.Enc = "std"
+		out = append(out, c)
+	}
+	return out
+}
